@@ -110,12 +110,13 @@ class _ShmSink(RawIOBase):
     requirements.
     """
 
-    def __init__(self, buf: memoryview, start: int) -> None:
-        """Initialize targeting *buf* starting at byte offset *start*."""
+    def __init__(self, buf: memoryview, start: int, limit: int) -> None:
+        """Initialize targeting *buf* at byte offset *start*, writing at most *limit* bytes."""
         super().__init__()
         self._buf = buf
         self._pos = start
         self._start = start
+        self._end = start + limit
 
     def write(self, data: bytes | bytearray | memoryview | pa.Buffer) -> int:  # type: ignore[override]  # ty: ignore[invalid-method-override]
         """Write *data* into the shared memory region."""
@@ -126,6 +127,10 @@ class _ShmSink(RawIOBase):
         else:
             mv = memoryview(data).cast("B") if data.format != "B" else data
         n = len(mv)
+        if self._pos + n > self._end:
+            # Never write past the allocation: the bytes beyond it belong to
+            # another live batch (or to the segment header of a later region).
+            raise ValueError("SHM write exceeds its allocation")
         self._buf[self._pos : self._pos + n] = mv
         self._pos += n
         return n
@@ -432,14 +437,22 @@ class ShmSegment:
 
         if not _has_dictionary_columns(batch.schema):
             # Non-dict: write IPC stream directly into SHM via _ShmSink
-            estimated = ipc.get_record_batch_size(batch) + _STREAM_OVERHEAD
+            # The stream carries the schema message too, which for a wide schema is
+            # far larger than the fixed framing allowance.
+            estimated = ipc.get_record_batch_size(batch) + batch.schema.serialize().size + _STREAM_OVERHEAD
             offset = self._allocator.allocate(estimated)
             if offset is None:
                 return None
-            sink = _ShmSink(shm_buf, offset)
-            writer = new_ipc_stream(sink, batch.schema)
-            writer.write_batch(batch)
-            writer.close()
+            sink = _ShmSink(shm_buf, offset, estimated)
+            try:
+                writer = new_ipc_stream(sink, batch.schema)
+                writer.write_batch(batch)
+                writer.close()
+            except ValueError:
+                # The estimate was too small after all: give the region back and
+                # let the caller fall back to inline transfer.
+                self._allocator.free(offset)
+                return None
             return offset, sink.bytes_written
 
         # Dict path: serialize to buffer, then copy
